@@ -1,4 +1,5 @@
 import XzVerif.Proofs.Segment
+import XzVerif.Proofs.GoSrcHdr
 import XzVerif.Proofs.Tables
 import XzVerif.Proofs.Lzma1RoundTrip
 import XzVerif.Proofs.LazyDec
@@ -112,5 +113,37 @@ theorem C07_lazy_reader_reads_every_legal_stream_unknown (cfgCap : Nat) (hdr : L
       delivered (readSeq l lens) = (finalH {} (Lzma1.encHist hdr) ops).out := by
   have h := Lzma1.read_encode_unknown (effCap cfgCap) hdr ops hlc hlp hpb hdc hsize hops
   exact lazy_of_batch cfgCap _ _ (by rw [h]) (by rw [h]) (by rw [h]) lens hsum
+
+/-! ### From the SOURCE: the classic header, lzma/header.go translated on every run (Gen/GoSrc.lean) -/
+
+/-- `header.unmarshalBinary` from the source: a 13-byte classic header yields the properties of its first byte (codes above
+    224 rejected), the little-endian dictionary size, and the little-endian uncompressed size with 2^64 − 1 = "unknown" and
+    values ≥ 2^63 rejected; any other length is an error; no index or slice-bounds panic -/
+theorem C07_source_header_fields (h : GoSrc.T_header) (data : Array (BitVec 8)) :
+    (data.size ≠ 13 → data.size < 2 ^ 62 →
+      GoSrc.header_unmarshalBinary h data = Go.Res.ok (Go.Err.new "lzma.unmarshalBinary: data has wrong length", h)) ∧
+    (data.size = 13 →
+      let c := (data.getD 0 0#8).toNat
+      let dc := GoSrcP.leVal data 1 4
+      let sz := GoSrcP.leVal data 5 8
+      if 224 < c then
+        ∃ h', GoSrc.header_unmarshalBinary h data = Go.Res.ok (Go.Err.new "lzma: invalid properties code", h')
+      else if sz ≠ 2 ^ 64 - 1 ∧ 2 ^ 63 ≤ sz then
+        ∃ h', GoSrc.header_unmarshalBinary h data
+                = Go.Res.ok (Go.Err.new "LZMA header: uncompressed size out of int64 range", h')
+      else
+        ∃ h', GoSrc.header_unmarshalBinary h data = Go.Res.ok (Go.Err.nil, h') ∧
+          h'.properties = (GoSrc.PropertiesForCode (data.getD 0 0#8)).1 ∧
+          h'.dictCap.toNat = dc ∧
+          h'.size = (if sz = 2 ^ 64 - 1 then BitVec.ofInt 64 (-1) else BitVec.ofNat 64 sz)) :=
+  ⟨fun hl hs => GoSrcP.header_unmarshal_wrong_length h data hl hs, fun hl => GoSrcP.header_unmarshal_spec h data hl⟩
+
+/-- `validDictCap` (used by `ValidHeader`): 2^32 − 1, 2^n or 2^n + 2^(n−1) for 10 ≤ n < 32 -/
+theorem C07_source_validDictCap (d : BitVec 64) (fuel : Nat) (hf : 40 ≤ fuel) :
+    GoSrc.validDictCap fuel d = Go.Res.ok (decide (d.toNat = 2 ^ 32 - 1) ||
+      (List.range 32).any (fun n => decide (10 ≤ n) && (decide (d.toNat = 2 ^ n) || decide (d.toNat = 2 ^ n + 2 ^ (n - 1))))) :=
+  GoSrcP.validDictCap_spec d fuel hf
+
+theorem C07_source_translation_complete : GoSrc.failures = [] := by decide
 
 end Props.C07
